@@ -85,10 +85,14 @@ def main(jobs, out, shard, nshards):
                 continue        # not a rendering matter (C09)
             renders = []
             for fmt in registry:
-                for notn, wopts in (('polish', {}), ('standard', {}), ('standard', {'drop_parens': False}), ('standard', {'identity_infix': False})):
-                    if wopts and fmt != 'text':
+                # every boolean option the format's writer declares, flipped one at a time (polish notation only)
+                flips = [('polish', {k: not v}) for k, v in sorted(dict(registry[fmt].defaults).items()) if isinstance(v, bool)]
+                for notn, wopts in [('polish', {}), ('standard', {}), ('standard', {'drop_parens': False}),
+                                    ('standard', {'identity_infix': False})] + flips:
+                    if wopts and fmt != 'text' and (notn, wopts) not in flips:
                         continue
-                    r = {'format': fmt, 'notation': notn, 'raised': '', 'same': 1, 'paths': [], 'wopts': json.dumps(wopts, sort_keys=True)}
+                    r = {'format': fmt, 'notation': notn, 'raised': '', 'same': 1, 'paths': [], 'wopts': json.dumps(wopts, sort_keys=True),
+                         'flip': int((notn, wopts) in flips)}
                     try:
                         w = TabWriter(fmt, notn, **wopts)
                         o1 = w(tab)
@@ -118,7 +122,7 @@ def main(jobs, out, shard, nshards):
                         nodes.append(e)
                     branches.append({'nodes': nodes, 'closed': int(b.closed)})
                 recs.append({'id': f"{job['id']}/{notn}/{key}", 'logic': job['logic'], 'argstr': arg.argstr(), 'premature': int(tab.premature),
-                             'branches': branches, 'renders': [r for r in renders if r['notation'] == notn and r['wopts'] == key]})
+                             'branches': branches, 'renders': [r for r in renders if r['notation'] == notn and (r['wopts'] == key or r['flip'] and not wopts)]})
             for rec in recs:
                 o.write(json.dumps(rec, separators=(',', ':')) + '\n')
 
